@@ -410,7 +410,7 @@ func rangeOf(t *Term) (lo, hi *big.Int) {
 	switch t.Op {
 	case "const":
 		return t.Val, t.Val
-	case "var", "app":
+	case "var", "app", "select":
 		return t.Lo, t.Hi
 	case "div":
 		l, h := rangeOf(t.Args[0])
